@@ -40,6 +40,20 @@ def gen_C07(rng, tier):
                         main = HEAD + f"{'oneway ' if iow else ''}interface I{{{body}}}"
                         cases.append(nm(f"ex{k}", project(main)))
                         k += 1
+    # user types that share their simple name with a built-in: the direction rules follow what the import / forward declaration says
+    shadow = [
+        ("package com.acme.model;parcelable ParcelableHolder{}", "import com.acme.model.ParcelableHolder;", "ParcelableHolder"),
+        ("package com.acme.model;enum ParcelFileDescriptor{A}", "import com.acme.model.ParcelFileDescriptor;", "ParcelFileDescriptor"),
+        ("package com.acme.model;interface IBinder{}", "import com.acme.model.IBinder;", "IBinder"),
+        (None, "import com.vendor.io.ParcelFileDescriptor;", "ParcelFileDescriptor"),
+        (None, "parcelable IBinder;", "IBinder"),
+        (None, "parcelable FileDescriptor;", "FileDescriptor"),
+    ]
+    for j, (defn, pre, ty) in enumerate(shadow):
+        for iow in (False, True):
+            body = "".join(f"void m{k}({d}{ty} x);" for k, d in enumerate(["", "in ", "out ", "inout "]))
+            files = ([("d", defn)] if defn else []) + [("main", f"package p;{pre}{'oneway ' if iow else ''}interface I{{{body}}}")]
+            cases.append(nm(f"sh{j}_{int(iow)}", files))
     n = 300 if tier == "quick" else 4000
     for i in range(n):
         fs = gen.gen_project(rng)
@@ -104,6 +118,23 @@ def gen_C08(rng, tier):
 
 
 # ------------------------------------------------------------------ C10
+def o_C10(case, p):
+    """parse-stage tree vs the abstract document, oneway flags only (item and methods, in order)"""
+    d = case.get("doc") if case else None
+    if d is None:
+        return None
+    a = p["fr"]["ast"]
+    if a is None:
+        return "no tree for a well-formed interface"
+    want = [(m["name"], bool(m["oneway"])) for m in d["members"] if m["m"] == "method"]
+    got = [(m["name"], bool(m["oneway"])) for m in a["item"]["members"] if m.get("m") == "method"]
+    if bool(a["item"]["oneway"]) != bool(d["oneway"]):
+        return f"interface oneway flag {a['item']['oneway']} but the text says {d['oneway']}"
+    if got != want:
+        return f"methods and their oneway keywords: tree {got}, text {want}"
+    return None
+
+
 def gen_C10(rng, tier):
     cases = []
     rets = list(ALL17.values())
@@ -131,6 +162,11 @@ def gen_C10(rng, tier):
             "void f(); oneway int f();", "oneway int f(); oneway String f(); void g();", "int f(); int f();",
             "const int K=1; oneway int f(); oneway int f();"])):
         cases.append(nm(f"dup{i}", project(HEAD + f"{'oneway ' if iow else ''}interface I{{{ms}}}")))
+    # what the text declares oneway is what the tree says (the keyword survives any layout around it)
+    for i in range(60 if tier == "quick" else 600):
+        d = gen.gen_doc(rng, kind="interface", opts={"pdoc": 0.1, "nmembers": rng.choice([1, 2, 3, 4])})
+        text, _ = gen.render(gen.tokens(d), random.Random(rng.randrange(1 << 30)), "wild")
+        cases.append({"name": f"ow{i}", "files": [("f", text)], "doc": d})
     # oneway keyword with annotations / trivia before it (the keyword's range)
     for i, pre in enumerate(["@A ", "@A() /*c*/ ", "/** d */ ", "// c\n", "@A\n\t", ""]):
         main = HEAD + "oneway interface I{" + pre + "oneway void f();" + pre + "void g();}"
@@ -169,6 +205,15 @@ def gen_projects(rng, tier, n_quick=1500, n_thorough=20000):
         [("a", "package com.acme.\n   telemetry . /* x */ model; parcelable Sample {}"),
          ("b", "package p; import com.acme.telemetry.model.Sample; interface I { void f(in Sample s, in com . acme.telemetry.model . Sample t); }")],
         [("a", "package android.os;interface ParcelFileDescriptor{}"), ("b", "package p;import android.os.ParcelFileDescriptor;parcelable P{ParcelFileDescriptor a;android.os.ParcelFileDescriptor b;}")],
+        # near misses of the suffix rule: the name repeated, and more qualification than the import has
+        [("a", "package p;import pkg.FooFoo;import x.a.Fooa.Foo;parcelable P{Foo a;a.Foo b;FooFoo c;}"), ("b", "package pkg;parcelable FooFoo{}")],
+        [("a", "package p;import zzz.Data;import aaa.DataDataData;parcelable P{Data a;List<Data> b;Map<String,Data[]> c;}"),
+         ("b", "package zzz;enum Data{A}"), ("c", "package aaa;interface DataDataData{}")],
+        [("a", "package p;import lib.Thing;import android.os.ParcelFileDescriptor;parcelable P{outer.lib.Thing a;my.android.os.ParcelFileDescriptor b;}"),
+         ("b", "package lib;parcelable Thing{}")],
+        # names broken over three and more lines (a position on a middle line is inside the name)
+        [("a", "package com.\n  acme.\n  deep.\n  pkg;\nimport com.\n example.\n Foo;\nparcelable P {\n  com.\n   example.\n    Foo a;\n}"),
+         ("b", "package com.example; parcelable Foo {}")],
         # types nested far deeper than the random stream goes (every level must be visited, found and resolved)
         [("a", "package p;import q.Foo;parcelable P{" + "List<" * 12 + "Foo" + ">" * 12 + " a;" + "Map<String," * 11 + "Foo[]" + ">" * 11 + " b;Foo" + "[]" * 11 + " c;}"),
          ("b", "package q;parcelable Foo{}")],
